@@ -13,4 +13,15 @@ PROPS = {
                 "extracted Coq model and by an independent bit-string oracle; distinct = distinct (query, answer) lines",
         "assumptions": ["labels have 32 value bytes and label_len <= 256 (theorem hypothesis WF); ordering theorem for canonical labels"],
     },
+    "C08": {
+        "coq_deps": ["MarkerFacts"],
+        "steps": [
+            {"sub": "markers", "quick": [0], "thorough": [1]},
+        ],
+        "rule": "get_marker_versions on every triple s<=n<=E up to the tier's bound, degenerate (panicking) arguments and "
+                "structured 64-bit triples around powers of two and skip-list elements, each answer recomputed by the extracted "
+                "Coq model; plus the property itself evaluated on the implementation's outputs: every quadruple (E,n,m,s') for "
+                "history/history and every triple (E,n,m) for lookup/history (kf_K1 lines, classified by the model's K1_class)",
+        "assumptions": ["versions and epochs are u64 values; the tree-level bridge (a label cannot be shown both present and absent) is C05"],
+    },
 }
